@@ -37,6 +37,20 @@ def check(rep, tier, seed):
             cases.append("case %d %d %d %d %d %s\n" % (k, seekable, rng.choice([0, 0, 1, 7, 255]), rng.below(1 << 30), nops, d.hex() or "-"))
             metas.append({"case": k, "kind": kind, "bytes": len(d), "seekable": seekable, "links_before_damage": len(fi["Ns"])})
             k += 1
+    # large page-free gaps (> 2 x the library's 64 KiB read-back chunk): the bisection and back-up loops of the seek
+    # functions meet "no page from here on" inside a long stretch of zeroes, in the middle of a link and before its last page
+    big = vfgen.encode_links([(777001 + seed, 2, 44100, 0.3, 1100000, 1, 4242 + seed, 0)], wd)[0]
+    if big and len(big) > 330000:
+        pgs = streams.parse_pages(big)
+        lastoff = pgs[-1]["offset"]
+        a0 = len(big) * 3 // 10
+        for (lo, hi, name) in ((a0, a0 + 140000 + rng.below(30000), "gap in the middle"), (len(big) * 4 // 10, lastoff, "gap before the last page")):
+            if hi - lo > 135000:
+                d = big[:lo] + bytes(hi - lo) + big[hi:]
+                for sd in range(2):
+                    cases.append("case %d 1 %d %d %d %s\n" % (k, rng.choice([0, 0, 255]), rng.below(1 << 30), nops, d.hex()))
+                    metas.append({"case": k, "kind": "large " + name, "bytes": len(d), "seekable": 1, "links_before_damage": 1})
+                    k += 1
     # corpus of earlier failures (one case per file, kept verbatim): appended with fresh case numbers
     cdir = os.path.join(common.VERIF, "corpus", "C03")
     ncorpus = 0
@@ -79,7 +93,7 @@ def check(rep, tier, seed):
         ic = common.split_cases(out.split("\n"))
         for kk, li in ic.items():
             m = metas[int(kk)]
-            dist[m["kind"]] += 1
+            dist[m["kind"]] = dist.get(m["kind"], 0) + 1
             for l in li:
                 if l.startswith("open "):
                     dist["opened" if l.strip() == "open 0" else "open_refused"] += 1
